@@ -48,6 +48,7 @@ PROPS = {
             {"kind": "verus", "unit": "digits"},
             {"kind": "verus", "unit": "gchainarm"},
             {"kind": "verus", "unit": "grepeat"},
+            {"kind": "verus", "unit": "grepeatarm"},
         ],
         "unreached": [
             "that each searching / iterating native consumes one budget item per unit of work (only the scan loops of sequence take_while / skip_until are under contract, under C08/C15)",
@@ -204,6 +205,7 @@ PROPS = {
             {"kind": "verus", "unit": "ggroup"},
             {"kind": "verus", "unit": "gchainarm"},
             {"kind": "verus", "unit": "grepeat"},
+            {"kind": "verus", "unit": "grepeatarm"},
             {"kind": "verus", "unit": "gsucc"},
             {"kind": "verus", "unit": "gwithcount"},
         ],
